@@ -34,7 +34,9 @@ def guess_output_format(fileorname, fileformat_request):
             else:
                 name = fileorname.name
             ext = os.path.splitext(name)[-1][1:]
-        except (AttributeError, ValueError, IndexError):
+        except (AttributeError, ValueError, IndexError, TypeError):
+            # no usable file name (e.g. temporary files are named by
+            # their descriptor number): fall back to the default
             pass
 
         if ext == 'tex':
